@@ -16,7 +16,8 @@ type Ev struct {
 	Fields [][2]string `json:"f,omitempty"`
 }
 
-var fieldNames = []string{"a", "b", "name", "Name", "x.y", "k-1", "lvl", "n_2"}
+// (names that are prefixes of each other: a / ab, nam / name; the same name in another case: name / Name)
+var fieldNames = []string{"a", "b", "name", "Name", "x.y", "k-1", "lvl", "n_2", "ab", "nam"}
 var words = []string{"error", "Error", "ERR", "warn", "db", "timeout", "user=7", "abc", "a/b", "x*y", "[q]", "", "z", "Zeta", "日本", "a b", "10", "9", "-5"}
 
 func genWord(r *Rng) string { return words[r.Intn(len(words))] }
@@ -659,4 +660,86 @@ func rpcCases() []Replay {
 	out = append(out, Replay{Kind: "query", Text: `fields:host = h1 OR msg contains "#"`, Events: evs, Via: "rpc", Tail: 2})
 	out = append(out, Replay{Kind: "query", Text: `NOT fields:level = info`, Events: evs, Via: "rpc", Range: []int64{11, 12}})
 	return out
+}
+
+// edgeCorpus: deterministic cases at the boundaries of the comparisons of whereeval.go / field.go / fiterator.go, run on every
+// check: string comparisons between values that are prefixes of each other, of equal length, differing in case, empty; operands
+// of CONTAINS/PREFIX/SUFFIX equal to / longer than / empty against the subject; field items of 127, 128, 200 and 255 bytes (the
+// length byte as a signed and as an unsigned number), a name of 255 bytes, 40 fields in one event (first, last, absent, duplicate);
+// timestamps at both ends of int64 against literals at the upper end.
+func edgeCorpus() (where, query []Replay) {
+	// ---- string comparisons
+	vals := []string{"", "a", "ab", "abc", "aB", "AB", "b", "ab ", "\u00e9", "a\u00e9"}
+	var cmpEvs []Ev
+	for i, v := range vals {
+		cmpEvs = append(cmpEvs, Ev{Ts: int64(i + 1), Msg: v, Fields: [][2]string{{"v", v}, {"w", "ab"}}})
+	}
+	cmpEvs = append(cmpEvs, Ev{Ts: 100, Msg: "no v"})
+	for _, op := range []string{"=", "!=", "<", "<=", ">", ">="} {
+		for _, lit := range []string{`"ab"`, `""`, `"b"`} {
+			where = append(where, Replay{Kind: "where", Stream: "edge-corpus", Text: "fields:v " + op + " " + lit, Events: cmpEvs})
+		}
+		where = append(where, Replay{Kind: "where", Stream: "edge-corpus", Text: "upper(fields:v) " + op + ` "AB" OR lower(fields:v) ` + op + ` "ab"`, Events: cmpEvs})
+	}
+	for _, op := range []string{"contains", "prefix", "suffix", "like"} {
+		for _, lit := range []string{`"ab"`, `""`, `"abc"`, `"b"`, `"ab "`} {
+			where = append(where, Replay{Kind: "where", Stream: "edge-corpus", Text: "msg " + op + " " + lit, Events: cmpEvs})
+			where = append(where, Replay{Kind: "where", Stream: "edge-corpus", Text: "NOT fields:v " + op + " " + lit, Events: cmpEvs})
+		}
+	}
+	// ---- field names that are prefixes of each other, in both orders, and a name that only occurs as the prefix of another
+	preEvs := []Ev{
+		{Ts: 1, Msg: "longer first", Fields: [][2]string{{"ab", "1"}, {"a", "2"}}},
+		{Ts: 2, Msg: "shorter first", Fields: [][2]string{{"a", "3"}, {"ab", "4"}}},
+		{Ts: 3, Msg: "only longer", Fields: [][2]string{{"abc", "5"}, {"Ab", "6"}}},
+		{Ts: 4, Msg: "value is the name", Fields: [][2]string{{"x", "a"}, {"y", "ab"}}},
+		{Ts: 5, Msg: "name then empty", Fields: [][2]string{{"a", ""}, {"ab", ""}}},
+	}
+	for _, t := range []string{`fields:a = 2`, `fields:a = 1`, `fields:ab = 1 OR fields:ab = 4`, `fields:a = ""`, `fields:ab = ""`, `fields:abc = 5`, `fields:A = 2`, `fields:a != ""`} {
+		where = append(where, Replay{Kind: "where", Stream: "edge-corpus", Text: t, Events: preEvs})
+	}
+	query = append(query, Replay{Kind: "query", Text: `fields:a = "" OR fields:ab = 1`, Events: preEvs})
+	// ---- sizes of field items: the length byte at 127 / 128 / 255, many fields
+	rep := func(c string, n int) string { return strings.Repeat(c, n) }
+	name255 := "n" + rep("x", 254)
+	var many [][2]string
+	for i := 0; i < 40; i++ {
+		many = append(many, [2]string{fmt.Sprintf("f%d", i), fmt.Sprintf("v%d", i)})
+	}
+	many = append(many, [2]string{"f7", "second f7"})
+	sizeEvs := []Ev{
+		{Ts: 1, Msg: "127", Fields: [][2]string{{"k", rep("a", 127)}, {"after", "x"}}},
+		{Ts: 2, Msg: "128", Fields: [][2]string{{"k", rep("a", 128)}, {"after", "x"}}},
+		{Ts: 3, Msg: "200", Fields: [][2]string{{"k", rep("a", 200)}, {"after", "y"}}},
+		{Ts: 4, Msg: "255", Fields: [][2]string{{"k", rep("a", 255)}, {"after", "x"}}},
+		{Ts: 5, Msg: "name255", Fields: [][2]string{{name255, "long name"}, {"after", "x"}, {"k", ""}}},
+		{Ts: 6, Msg: "many", Fields: many},
+		{Ts: 7, Msg: rep("m", 300) + " end"},
+	}
+	for _, t := range []string{
+		`fields:k = "` + rep("a", 128) + `"`, `fields:k >= "` + rep("a", 128) + `"`, `fields:k prefix "` + rep("a", 200) + `"`, `fields:k = "` + rep("a", 255) + `"`,
+		`fields:after = x`, `fields:after = x AND NOT fields:k = ""`, `fields:` + name255 + ` = "long name"`, `fields:` + name255 + `x = ""`,
+		`fields:f0 = v0 OR fields:f39 = v39`, `fields:f7 = v7`, `fields:f7 = "second f7"`, `fields:f40 = ""`, `msg suffix " end" OR msg = "128"`,
+	} {
+		where = append(where, Replay{Kind: "where", Stream: "edge-corpus", Text: t, Events: sizeEvs})
+	}
+	query = append(query, Replay{Kind: "query", Text: `fields:after = x AND NOT fields:k = ""`, Events: sizeEvs},
+		Replay{Kind: "query", Text: `fields:` + name255 + ` = "long name" OR fields:f39 = v39`, Events: sizeEvs, Via: "rpc"},
+		Replay{Kind: "query", Text: `fields:k >= "` + rep("a", 128) + `"`, Events: sizeEvs, Via: "rpc", Twice: true})
+	// ---- timestamps at the ends of int64
+	tsEvs := []Ev{{Ts: -9223372036854775808, Msg: "min"}, {Ts: -1, Msg: "m1"}, {Ts: 0, Msg: "zero"}, {Ts: 1, Msg: "one"},
+		{Ts: 9223372036854775806, Msg: "max-1"}, {Ts: 9223372036854775807, Msg: "max"}}
+	for _, t := range []string{`ts < "9223372036854775807"`, `ts <= "9223372036854775807"`, `ts > "9223372036854775806"`, `ts >= "9223372036854775807"`,
+		`ts > "0"`, `ts >= "0"`, `ts < "0"`, `ts <= "0"`, `ts < "1" AND NOT ts < "0"`, `ts > "9223372036854775808"`, `ts >= "-9223372036854775808"`} {
+		where = append(where, Replay{Kind: "where", Stream: "edge-corpus", Text: t, Events: tsEvs})
+	}
+	query = append(query, Replay{Kind: "query", Text: `ts <= "0" OR ts >= "9223372036854775807"`, Events: tsEvs},
+		Replay{Kind: "query", Text: `msg contains "m"`, Events: tsEvs, Off: 1, Lim: 2},
+		Replay{Kind: "query", Text: `msg contains "m"`, Events: tsEvs, Off: 4, Lim: 5},
+		Replay{Kind: "query", Text: `msg contains "m"`, Events: tsEvs, Off: 3},
+		Replay{Kind: "query", Text: `NOT msg = "zero"`, Events: tsEvs, Page: 2},
+		Replay{Kind: "query", Text: `NOT msg = "zero"`, Events: tsEvs, Page: 1, Twice: true},
+		Replay{Kind: "query", Text: `NOT msg = "zero"`, Events: tsEvs, Lim: 5},
+		Replay{Kind: "query", Text: `NOT msg = "zero"`, Events: tsEvs, Tail: 5, Twice: true})
+	return where, query
 }
